@@ -229,12 +229,12 @@ def oracle(c, o):
 
 
 def gen_cases(rng, tier):
-    per = 28 if tier == 'quick' else 900
+    per = 20 if tier == 'quick' else 900
     cases = c04.corpus_cases() + corpus_cases()
     gen = c04gen.gen_cases(rng, tier, n=per, small=True)
     # serialisation is about structure, not coordinates: keep byte strings moderate
     cases += gen
-    nf = 12 if tier == 'quick' else 400
+    nf = 9 if tier == 'quick' else 400
     for kind in ('bai', 'csi', 'tabix'):
         for _ in range(nf):
             cases.append(gen_foreign(rng, kind))
